@@ -146,6 +146,14 @@ int main() {
                 std::cout << "\ncscvals"; for (isize k = 0; k < C.nonZeros(); k++) std::cout << " " << C.valuePtr()[k].str();
                 std::cout << "\n";
             }
+            else if (c == "csc.istp") {
+                RawS a = raw(t);
+                RawS b = raw(t);
+                SMat A = sparse_of(a, false);
+                SMat C = sparse_of(b, false);
+                bool ok = sparse::is_transpose_pattern<Q, int>(A, C);
+                std::cout << "istp " << (ok ? 1 : 0) << "\n";
+            }
             else if (c == "ord.amd") {
                 RawS a = raw(t);
                 SMat A = sparse_of(a, true);
